@@ -1,3 +1,198 @@
-(* DeterminismProofs.v — proofs about Determinism.v *)
+(* DeterminismProofs.v — proofs about Determinism.v (C04).
+
+   Main result: [order_independent]: for an order-insensitive configuration the observable
+   outcome is the same under any two permutation oracles.  Structure:
+   - [E tm tc]: two states agree on everything observable; on MATCHED_VAR(_NAME) unless [tm],
+     on TX.0-9 unless [tc];
+   - actions / one entry respect [E] ([step_respects]);
+   - in a link with a multi-valued target two entries commute up to [E true _]
+     ([step_commute]); the general lemma [fold_perm_equiv] (Permutation induction: perm_skip /
+     perm_swap / perm_trans) lifts this to any two orders of the selected entries;
+   - links without multi-valued target select at most one entry per target: the oracle cannot
+     change anything, and after a match MATCHED_VAR is equal again;
+   - chains, rules, phases, transaction by induction over the configuration.  *)
 From Verif Require Import Base Transform Determinism.
 From Coq Require Import Permutation.
+Open Scope N_scope.
+
+(* ------------------------------------------------------------------------------------- *)
+(* the key lemma: a fold of pairwise commuting steps is invariant under permutation      *)
+(* ------------------------------------------------------------------------------------- *)
+
+Section FoldPerm.
+  Variables (S A : Type) (R : S -> S -> Prop) (step : S -> A -> S).
+  Hypothesis R_refl : forall s, R s s.
+  Hypothesis R_trans : forall a b c, R a b -> R b c -> R a c.
+  Hypothesis step_resp : forall s s' a, R s s' -> R (step s a) (step s' a).
+  Hypothesis step_comm : forall s a b, R (step (step s a) b) (step (step s b) a).
+
+  Lemma fold_resp : forall l s s', R s s' -> R (fold_left step l s) (fold_left step l s').
+  Proof. induction l as [|a l IH]; intros s s' H; cbn; [exact H | apply IH, step_resp, H]. Qed.
+
+  Lemma fold_perm_equiv : forall l l', Permutation l l' ->
+    forall s s', R s s' -> R (fold_left step l s) (fold_left step l' s').
+  Proof.
+    induction 1 as [| x l l' HP IH | x y l | l l' l'' HP1 IH1 HP2 IH2]; intros s s' H.
+    - exact H.
+    - cbn. apply IH, step_resp, H.
+    - cbn. eapply R_trans.
+      + apply fold_resp, step_comm.
+      + apply fold_resp, step_resp, step_resp, H.
+    - eapply R_trans; [apply IH1, R_refl | apply IH2, H].
+  Qed.
+End FoldPerm.
+
+(* ------------------------------------------------------------------------------------- *)
+(* the relation between two runs                                                         *)
+(* ------------------------------------------------------------------------------------- *)
+
+Definition E (tm tc : bool) (s s' : st) : Prop :=
+  s_tx s = s_tx s' /\ s_intr s = s_intr s' /\ s_hs s = s_hs s' /\ fired_equiv (s_fired s) (s_fired s')
+  /\ (tm = false -> s_mv s = s_mv s' /\ s_mvn s = s_mvn s')
+  /\ (tc = false -> s_cap s = s_cap s').
+
+Ltac E_split := split; [|split; [|split; [|split; [|split]]]].
+
+Lemma fired_equiv_refl l : fired_equiv l l.
+Proof. induction l; constructor; auto. Qed.
+
+Lemma fired_equiv_sym a b : fired_equiv a b -> fired_equiv b a.
+Proof. induction 1; constructor; auto. destruct H; split; [congruence | apply Permutation_sym; auto]. Qed.
+
+Lemma fired_equiv_trans a b c : fired_equiv a b -> fired_equiv b c -> fired_equiv a c.
+Proof.
+  intros H; revert c; induction H as [|x y l l' Hxy Hl IH]; intros c Hc; inversion Hc as [|y' z l2 l3 Hyz Hl3]; subst; constructor.
+  - destruct Hxy, Hyz; split; [congruence | eapply Permutation_trans; eauto].
+  - apply IH; auto.
+Qed.
+
+Lemma E_refl tm tc s : E tm tc s s.
+Proof. E_split; auto using fired_equiv_refl. Qed.
+
+Lemma E_sym tm tc s s' : E tm tc s s' -> E tm tc s' s.
+Proof.
+  intros (H1 & H2 & H3 & H4 & H5 & H6). E_split; auto using fired_equiv_sym.
+  - intros H. destruct (H5 H). split; congruence.
+  - intros H. symmetry; auto.
+Qed.
+
+Lemma E_trans tm tc a b c : E tm tc a b -> E tm tc b c -> E tm tc a c.
+Proof.
+  intros (H1 & H2 & H3 & H4 & H5 & H6) (G1 & G2 & G3 & G4 & G5 & G6).
+  split; [congruence|]. split; [congruence|]. split; [congruence|].
+  split; [eauto using fired_equiv_trans|]. split.
+  - intros H. destruct (H5 H), (G5 H). split; congruence.
+  - intros H. rewrite H6, G6; auto.
+Qed.
+
+Definition ble (x y : bool) : Prop := x = true -> y = true.
+
+Lemma ble_false x y : ble x y -> y = false -> x = false.
+Proof. unfold ble; destruct x, y; intros; auto. discriminate (H eq_refl). Qed.
+
+Lemma E_weaken tm tc tm' tc' s s' : ble tm tm' -> ble tc tc' -> E tm tc s s' -> E tm' tc' s s'.
+Proof.
+  intros Hm Hc (H1 & H2 & H3 & H4 & H5 & H6). E_split; auto.
+  - intros H. apply H5. eapply ble_false; eauto.
+  - intros H. apply H6. eapply ble_false; eauto.
+Qed.
+
+(* ------------------------------------------------------------------------------------- *)
+(* state updates respect E                                                               *)
+(* ------------------------------------------------------------------------------------- *)
+
+Lemma E_st_set tm tc s s' k v : E tm tc s s' -> E tm tc (st_set s k v) (st_set s' k v).
+Proof.
+  intros (H1 & H2 & H3 & H4 & H5 & H6). unfold st_set.
+  destruct (is_cap_key k); E_split; cbn; auto; try congruence.
+  intros H. rewrite H6; auto.
+Qed.
+
+Lemma E_set_mv tm tc s s' v n : E tm tc s s' -> E false tc (st_set_mv s v n) (st_set_mv s' v n).
+Proof. intros (H1 & H2 & H3 & H4 & H5 & H6). E_split; cbn; auto. Qed.
+
+Lemma E_tick tm tc s s' : E tm tc s s' -> E tm tc (st_tick s) (st_tick s').
+Proof. intros (H1 & H2 & H3 & H4 & H5 & H6). E_split; cbn; auto. Qed.
+
+Lemma W_set_mv tc s v n : E true tc s (st_set_mv s v n).
+Proof. E_split; cbn; auto using fired_equiv_refl; discriminate. Qed.
+
+Lemma W_set_cap s k v : is_cap_key k = true -> E true true s (st_set s k v).
+Proof. intros Hk. unfold st_set; rewrite Hk. E_split; cbn; auto using fired_equiv_refl; discriminate. Qed.
+
+Lemma st_get_E tm tc s s' k :
+  E tm tc s s' -> (is_cap_key k = true -> tc = false) -> st_get s k = st_get s' k.
+Proof.
+  intros (H1 & H2 & H3 & H4 & H5 & H6) Hk. unfold st_get.
+  destruct (is_cap_key k); [rewrite H6; auto | rewrite H1; auto].
+Qed.
+
+(* ------------------------------------------------------------------------------------- *)
+(* macros and setvar                                                                     *)
+(* ------------------------------------------------------------------------------------- *)
+
+Lemma expand_E tm tc s s' m :
+  E tm tc s s' ->
+  (existsb part_reads_mv m = true -> tm = false) ->
+  (existsb part_reads_cap m = true -> tc = false) ->
+  expand s m = expand s' m.
+Proof.
+  intros HE. unfold expand. induction m as [|p m IH]; intros Hm Hc; cbn; [reflexivity|].
+  cbn in Hm, Hc. f_equal.
+  - destruct p; cbn; auto.
+    + destruct HE as (_ & _ & _ & _ & H5 & _). apply H5. apply Hm. reflexivity.
+    + destruct HE as (_ & _ & _ & _ & H5 & _). apply H5. apply Hm. reflexivity.
+    + rewrite (st_get_E _ _ _ _ k HE); auto. intros Hk. apply Hc. cbn. rewrite Hk. reflexivity.
+  - apply IH; intros H; [apply Hm | apply Hc]; rewrite H; apply orb_true_r.
+Qed.
+
+Lemma setvar_E tm tc s s' k v :
+  is_cap_key k = false -> E tm tc s s' -> E tm tc (setvar_apply s k v) (setvar_apply s' k v).
+Proof.
+  intros Hk HE.
+  assert (Hg : st_get s k = st_get s' k) by (apply (st_get_E _ _ _ _ k HE); congruence).
+  unfold setvar_apply. rewrite Hg.
+  destruct v as [|c rest]; [apply E_st_set; auto|].
+  destruct ((c =? 43) || (c =? 45)); [|apply E_st_set; auto].
+  destruct rest as [|d rest'].
+  - destruct (cur_int (st_get s' k)); auto using E_st_set.
+  - destruct (atoi (d :: rest')).
+    + destruct (cur_int (st_get s' k)); auto using E_st_set.
+    + destruct (is_prefix _ _); auto using E_st_set.
+Qed.
+
+Definition act_ok (tm tc : bool) (a : action) : Prop :=
+  act_writes_cap a = false /\ (act_reads_mv a = true -> tm = false) /\ (act_reads_cap a = true -> tc = false).
+
+Lemma act_E tm tc s s' a : act_ok tm tc a -> E tm tc s s' -> E tm tc (act_apply s a) (act_apply s' a).
+Proof.
+  destruct a as [k m]. intros (Hw & Hm & Hc) HE. cbn in *.
+  rewrite (expand_E tm tc s s' m HE Hm Hc). apply setvar_E; auto.
+Qed.
+
+Lemma acts_E tm tc acts : Forall (act_ok tm tc) acts ->
+  forall s s', E tm tc s s' -> E tm tc (fold_left act_apply acts s) (fold_left act_apply acts s').
+Proof.
+  induction 1 as [|a l Ha Hl IH]; intros s s' HE; cbn; [exact HE|]. apply IH, act_E; auto.
+Qed.
+
+(* setvar never touches MATCHED_VAR / MATCHED_VAR_NAME *)
+Lemma st_set_mv_same s k v : s_mv (st_set s k v) = s_mv s /\ s_mvn (st_set s k v) = s_mvn s.
+Proof. unfold st_set; destruct (is_cap_key k); cbn; auto. Qed.
+
+Lemma setvar_mv_same s k v : s_mv (setvar_apply s k v) = s_mv s /\ s_mvn (setvar_apply s k v) = s_mvn s.
+Proof.
+  unfold setvar_apply.
+  destruct v as [|c rest]; [apply st_set_mv_same|].
+  destruct ((c =? 43) || (c =? 45)); [|apply st_set_mv_same].
+  destruct rest as [|d rest'].
+  - destruct (cur_int _); auto using st_set_mv_same.
+  - destruct (atoi _); [destruct (cur_int _)|destruct (is_prefix _ _)]; auto using st_set_mv_same.
+Qed.
+
+Lemma acts_mv_same acts : forall s,
+  s_mv (fold_left act_apply acts s) = s_mv s /\ s_mvn (fold_left act_apply acts s) = s_mvn s.
+Proof.
+  induction acts as [|[k m] l IH]; intros s; cbn; [auto|].
+  destruct (IH (setvar_apply s k (expand s m))) as [-> ->]. apply setvar_mv_same.
+Qed.
